@@ -286,10 +286,10 @@ func (g GV) build() any {
 var valueToks = []*Tok{{ID: 0}, {ID: 1}, {ID: 2}, {ID: 3}}
 var valueChans = []chan int{make(chan int), make(chan int), make(chan int), make(chan int)}
 
-func gInt(k string, z string) GV    { return GV{T: "int", K: k, Z: z} }
-func gF64(bits uint64) GV           { return GV{T: "f64", Bits: bits} }
-func gF32(bits uint32) GV           { return GV{T: "f32", Bits: uint64(bits)} }
-func gStr(id int) GV                { return GV{T: "string", ID: id} }
+func gInt(k string, z string) GV { return GV{T: "int", K: k, Z: z} }
+func gF64(bits uint64) GV        { return GV{T: "f64", Bits: bits} }
+func gF32(bits uint32) GV        { return GV{T: "f32", Bits: uint64(bits)} }
+func gStr(id int) GV             { return GV{T: "string", ID: id} }
 func gSlice(e string, elems ...GV) GV {
 	if elems == nil {
 		elems = []GV{}
@@ -535,9 +535,9 @@ func (r VRes) Coq() string {
 	return "VPanic"
 }
 
-func vNat(n int) VRes      { return VRes{K: "nat", N: n} }
-func vB(b bool) VRes       { return VRes{K: "b", B: b} }
-func vZint(i int) VRes     { return VRes{K: "z", Z: fmt.Sprint(i)} }
+func vNat(n int) VRes       { return VRes{K: "nat", N: n} }
+func vB(b bool) VRes        { return VRes{K: "b", B: b} }
+func vZint(i int) VRes      { return VRes{K: "z", Z: fmt.Sprint(i)} }
 func vZbits(f float64) VRes { return VRes{K: "z", Z: fmt.Sprint(math.Float64bits(f))} }
 func vSlr(s []any) VRes {
 	l := make([]GV, len(s))
